@@ -968,8 +968,11 @@ func (h *Hub) processUnregister(client HandlerClient) Session {
 	delete(h.expectHelloClients, client)
 	if session != nil {
 		delete(h.clients, session.Data().Sid)
-		now := time.Now()
-		h.expiredSessions[session] = now.Add(sessionExpireDuration)
+		if _, found := h.sessions[session.Data().Sid]; found {
+			// Only expire sessions that have not been closed in the meantime.
+			now := time.Now()
+			h.expiredSessions[session] = now.Add(sessionExpireDuration)
+		}
 	}
 	h.mu.Unlock()
 	if session != nil {
